@@ -95,7 +95,11 @@ AVT::AVT(
 
     const StringTokenizer::size_type    nTokens = tokenizer.countTokens();
 
-    if(nTokens < 2)
+    // A value that is just one brace is not the simple
+    // case: it's an error, which the code below reports.
+    if(nTokens < 2 &&
+       equals(stringedValue, theLeftCurlyBracketString) == false &&
+       equals(stringedValue, theRightCurlyBracketString) == false)
     {
         // Do the simple thing
         m_simpleStringLength = length(stringedValue);
